@@ -15,6 +15,7 @@ Surface terms are nested tuples:
     ("$", x)               numbered submatch
     ("->", name, x)        named (and numbered) submatch
     ("nocase", x)          (w/nocase x)
+    ("case", x)            (w/case x)     case-sensitive again (the default), also inside w/nocase
 
 The meaning of a term inside a fixed subject string s is a relation on positions 0..len(s):
 (i, j) is in R(t) when s[i:j] matches t *at that place in s* -- the place matters only for
@@ -73,6 +74,8 @@ def to_scheme(t):
         return "(-> %s %s)" % (t[1], to_scheme(t[2]))
     if k == "nocase":
         return "(w/nocase %s)" % to_scheme(t[1])
+    if k == "case":
+        return "(w/case %s)" % to_scheme(t[1])
     raise ValueError(t)
 
 
@@ -80,7 +83,7 @@ def children(t):
     k = t[0]
     if k in ("seq", "or"):
         return list(t[1:])
-    if k in ("*", "+", "?", "$", "nocase"):
+    if k in ("*", "+", "?", "$", "nocase", "case"):
         return [t[1]]
     if k in ("=", "->"):
         return [t[2]]
@@ -109,6 +112,8 @@ def submatches(t, ci=False):
             walk(t[2], ci)
         elif k == "nocase":
             walk(t[1], True)
+        elif k == "case":
+            walk(t[1], False)
         else:
             for c in children(t):
                 walk(c, ci)
@@ -198,6 +203,8 @@ def ends(t, s, i, ci=False):
         return ends(t[2], s, i, ci)
     if k == "nocase":
         return ends(t[1], s, i, True)
+    if k == "case":
+        return ends(t[1], s, i, False)
     if k == "?":
         return frozenset([i]) | ends(t[1], s, i, ci)
     if k in ("*", "+"):
@@ -334,6 +341,8 @@ def core(t, ci=False):
         return core(t[2], ci)
     if k == "nocase":
         return core(t[1], True)
+    if k == "case":
+        return core(t[1], False)
     if k == "*":
         return STAR(core(t[1], ci))
     if k == "+":
@@ -485,6 +494,8 @@ def to_pyre(t, ci=False):
         return to_pyre(t[2], ci)
     if k == "nocase":
         return to_pyre(t[1], True)
+    if k == "case":
+        return to_pyre(t[1], False)
     if k in ("*", "+", "?"):
         return "(?:%s)%s" % (to_pyre(t[1], ci), k)
     if k == "=":
